@@ -13,6 +13,7 @@ from scrapli.exceptions import (
     ScrapliAuthenticationFailed,
     ScrapliConnectionError,
     ScrapliConnectionNotOpened,
+    ScrapliTimeout,
 )
 from scrapli.ssh_config import SSHKnownHosts
 from scrapli.transport.base import BasePluginTransportArgs, BaseTransportArgs, Transport
@@ -294,6 +295,10 @@ class ParamikoTransport(Transport):
             raise ScrapliConnectionNotOpened
         try:
             buf: bytes = self.session_channel.recv(65535)
+        except ScrapliTimeout:
+            # raised by the timeout decorator's signal handler while we were blocked in the read
+            # above; the operation timed out, that is not a connection error
+            raise
         except Exception as exc:
             msg = (
                 "encountered EOF reading from transport; typically means the device closed the "
